@@ -910,6 +910,22 @@ def _map_is_empty(it, st, args, ctx):
     return simp(z3.Not(z3.Or([g for _, _, g in mm.entries]))) if mm.entries else z3.BoolVal(True)
 
 
+@summary(r'^' + _MAP_T + r'::(len)$')
+def _map_len(it, st, args, ctx):
+    mm = map_of(it, st, args[0])
+    n = bv(0, 64)
+    for c in live_conds(mm):
+        n = n + z3.If(c, bv(1, 64), bv(0, 64))
+    return simp(n)
+
+
+@summary(r'^' + _MAP_T + r'::(clear)$')
+def _map_clear(it, st, args, ctx):
+    mm = map_of(it, st, args[0])
+    it.store(st, args[0], Opaque('Map', MapM(ordered=mm.ordered)))
+    return UNIT
+
+
 @summary(r'^<(std::collections::)?HashMap<.*> as Extend<.*>>::extend::<')
 def _map_extend(it, st, args, ctx):
     mm = map_of(it, st, args[0])
